@@ -190,7 +190,7 @@ def op_lines(sc):
     out.append('E ' + ('complete' if sc.get('complete', True) else 'open'))
     return out
 
-def run_scenario(binary, name, seed, wd, churn=True, timeout=60):
+def run_scenario(binary, name, seed, wd, churn=True, timeout=150):
     os.makedirs(wd, exist_ok=True)
     log = os.path.join(wd, '%s-%d.strace' % (name, seed))
     if os.path.exists(log): os.remove(log)
